@@ -379,6 +379,9 @@ func (r *run) play(c fox.Context, script []Op) {
 			default:
 				_, _ = c.Writer().Write([]byte(op.Data))
 			}
+		case "delegate":
+			// the route declines the request after a look at it and lets the router's no-route handler answer
+			c.Fox().HandleNoRoute(c)
 		case "redirect":
 			_ = c.Redirect(op.Code, op.Val)
 		case "flush":
@@ -1003,7 +1006,7 @@ var behaviours = []string{
 	"status", "status", "status", "status", "info-then-status", "body-only", "nothing", "info-only", "switching-protocols",
 	"redirect-with-location", "redirect-with-location", "redirect-without-location", "location-on-non-3xx",
 	"header-after-body", "two-statuses", "panic", "panic",
-	"flush-then-status", "flush-then-status", "status-then-flush", "flush-only",
+	"flush-then-status", "flush-then-status", "status-then-flush", "flush-only", "delegate-noroute", "delegate-noroute",
 }
 
 func genScript(t *rapid.T, beh string) []Op {
@@ -1035,6 +1038,11 @@ func genScript(t *rapid.T, beh string) []Op {
 		if gen.Chance(t, 1, 3, "onlyHeader") {
 			s = append(s, Op{Op: "hdr", Key: "X-Test", Val: "1"})
 		}
+	case "delegate-noroute":
+		if gen.Chance(t, 1, 3, "xhdr") {
+			s = append(s, Op{Op: "hdr", Key: "X-Test", Val: "1"})
+		}
+		s = append(s, Op{Op: "delegate"})
 	case "info-only":
 		s = append(s, Op{Op: "wh", Code: gen.Pick(t, infoCodes, "info")})
 	case "switching-protocols":
@@ -1157,6 +1165,12 @@ func genCase(t *rapid.T) *Case {
 		c.Beh = "default"
 	} else {
 		c.Beh = gen.Pick(t, behaviours, "behaviour")
+		if c.Beh == "delegate-noroute" && c.Kind != "route" {
+			c.Beh = "status" // only a route handler hands over to the no-route handler
+		}
+		if c.Beh == "delegate-noroute" {
+			c.Mounted = false // the mounted router's no-route handler IS the script
+		}
 		c.Script = genScript(t, c.Beh)
 	}
 	return c
